@@ -696,6 +696,17 @@ impl Vm {
 
             let op = unsafe { std::mem::transmute::<u8, Op>(self.read_byte()) };
 
+            #[cfg(numbat_verif)]
+            crate::verif::trace_op(
+                self.current_frame().function_idx,
+                self.current_frame().ip - 1,
+                op.to_string(),
+                self.stack.len(),
+                self.frames.len(),
+                self.current_frame().fp,
+                self.stack.last(),
+            );
+
             match op {
                 Op::LoadConstant => {
                     let constant_idx = self.read_u16();
@@ -1257,4 +1268,115 @@ fn vm_basic() {
         vm.run(&mut ctx).unwrap(),
         InterpreterResult::Value(Value::Quantity(Quantity::from_scalar(42.0 + 1.0)))
     );
+}
+
+#[cfg(numbat_verif)]
+impl Vm {
+    pub(crate) fn verif_op_names() -> Vec<&'static str> {
+        (0..=(Op::Return as u8))
+            .map(|b| unsafe { std::mem::transmute::<u8, Op>(b) }.to_string())
+            .collect()
+    }
+
+    /// Number of u16 operands the compiler emits and the run loop reads for `op`
+    /// (`Op::num_operands`, used by the debug disassembler only, differs for
+    /// Factorial, FFICallFunction and CallCallable).
+    fn verif_num_operands(op: Op) -> usize {
+        match op {
+            Op::FFICallFunction | Op::FFICallProcedure => 3,
+            Op::SetUnitConstant | Op::Call | Op::CallCallable | Op::BuildStructInstance => 2,
+            Op::LoadConstant
+            | Op::ApplyPrefix
+            | Op::GetLocal
+            | Op::GetUpvalue
+            | Op::Factorial
+            | Op::PrintString
+            | Op::JoinString
+            | Op::JumpIfFalse
+            | Op::Jump
+            | Op::AccessStructField
+            | Op::BuildList => 1,
+            _ => 0,
+        }
+    }
+
+    /// Decoded program store (see `crate::verif::VmProgram`); stack summaries from slot `from` on.
+    pub(crate) fn verif_program(&self, from: usize) -> crate::verif::VmProgram {
+        use crate::verif::{VmChunk, VmConstant, VmInstr, VmProgram, vm_value_summary};
+        let chunks = self
+            .bytecode
+            .iter()
+            .map(|(name, bytecode, _)| {
+                let mut code = vec![];
+                let mut offset = 0;
+                while offset < bytecode.len() {
+                    let this_offset = offset;
+                    let op = unsafe { std::mem::transmute::<u8, Op>(bytecode[offset]) };
+                    offset += 1;
+                    let mut operands = vec![];
+                    for _ in 0..Self::verif_num_operands(op) {
+                        operands.push(u16::from_le_bytes(
+                            bytecode[offset..(offset + 2)].try_into().unwrap(),
+                        ));
+                        offset += 2;
+                    }
+                    code.push(VmInstr {
+                        offset: this_offset,
+                        op: op.to_string(),
+                        operands,
+                    });
+                }
+                VmChunk {
+                    name: name.to_string(),
+                    code,
+                    byte_len: bytecode.len(),
+                }
+            })
+            .collect();
+        let constants = self
+            .constants
+            .iter()
+            .map(|c| VmConstant {
+                kind: match c {
+                    Constant::Scalar(_) => "scalar",
+                    Constant::Unit(_) => "unit",
+                    Constant::Boolean(_) => "boolean",
+                    Constant::String(_) => "string",
+                    Constant::FunctionReference(_) => "function",
+                    Constant::FormatSpecifiers(_) => "format",
+                },
+                text: c.to_string(),
+                value: vm_value_summary(&c.to_value()),
+            })
+            .collect();
+        VmProgram {
+            chunks,
+            constants,
+            structs: self
+                .struct_infos
+                .iter()
+                .map(|(n, info)| {
+                    (
+                        n.to_string(),
+                        info.fields.keys().map(|k| k.to_string()).collect(),
+                    )
+                })
+                .collect(),
+            ffi_callables: self.ffi_callables.keys().map(|k| k.to_string()).collect(),
+            num_ffi_call_args: self.ffi_call_args.len(),
+            num_prefixes: self.prefixes.len(),
+            stack_len: self.stack.len(),
+            frames_len: self.frames.len(),
+            root_ip: self.frames[0].ip,
+            num_globals: 0,
+            last_result: self.last_result.as_ref().map(vm_value_summary),
+            stack_from: from.min(self.stack.len()),
+            stack: self
+                .stack
+                .iter()
+                .skip(from)
+                .map(vm_value_summary)
+                .collect(),
+        }
+    }
 }
